@@ -424,6 +424,11 @@ fn evaluate_single_inline_expression(
         match pair.as_rule() {
             Rule::statement => {
                 if let Some(inner_pair) = pair.into_inner().next() {
+                    // Skip comments - they have nothing to evaluate
+                    if inner_pair.as_rule() == Rule::comment {
+                        continue;
+                    }
+
                     let inner_pairs = inner_pair.into_inner();
 
                     match evaluate_pairs(
